@@ -1130,6 +1130,16 @@ def simplify_call(term, c, t):
     # std conversions applied to a value whose variant is already known on this path (after `.filter(..)`, a match arm
     # that built Some/None, ...): compute the result instead of forking on it later
     last = path.split('::')[-1]
+    if last in ('eq', 'ne') and len(args) == 2 and c.get('trait') == 'std::cmp::PartialEq':
+        # `Variant == Variant` of a field-less enum with derived PartialEq, both sides known on this path
+        x, y = strip_transparent(args[0]), strip_transparent(args[1])
+        if all(isinstance(z, tuple) and z and z[0] == 'agg' and isinstance(z[1], str) and len(z) > 3 and z[3] is not None and len(z[2]) == 0 for z in (x, y)):
+            ax, ay = x[1].rsplit('::', 1)[0], y[1].rsplit('::', 1)[0]
+            facts = _TL.facts
+            derived = facts is not None and any(im.get('derived') and im.get('trait') == 'std::cmp::PartialEq' and im.get('self_ty') == ax for im in facts.impls)
+            if ax == ay and derived:
+                same = x[3] == y[3]
+                return ('int', int(same == (last == 'eq')), None)
     if args and isinstance(args[0], tuple) and args[0] and args[0][0] == 'agg' and isinstance(args[0][1], str):
         a0 = args[0]
         if a0[1] in ('std::option::Option::Some', 'std::option::Option::None'):
@@ -1512,6 +1522,15 @@ def find_calls(t, suffix):
     return [x for x in term_walk(t) if isinstance(x, tuple) and x and x[0] == 'call' and x[1].endswith(suffix)]
 
 
+def loop_root(t):
+    """the loop-carried collection behind a term: `mutated(.. mutated(loopvar) ..)` (a path that leaves the loop right
+    after its last push) -> the loopvar; else None"""
+    t = strip_transparent(t)
+    while isinstance(t, tuple) and t and t[0] == 'mutated':
+        t = strip_transparent(t[1])
+    return t if isinstance(t, tuple) and t and t[0] == 'loopvar' else None
+
+
 def loop_stream(sym, lv):
     """A collection local that is grown inside a loop (`for x in SRC { if P(x) { v.push(F(x)); } }`), described like
     the iterator pipeline it stands for.  lv = ('loopvar', local, name, head).
@@ -1529,6 +1548,7 @@ def loop_stream(sym, lv):
     elem = None
     nxt = None
     cap = None
+    cap_seen = []
     for p in sym.paths:
         if head not in p.blocks:
             continue
@@ -1561,8 +1581,11 @@ def loop_stream(sym, lv):
             if order.get(c[2], 0) > pb:
                 # tested after the push: may only be the capacity test `v.len() == N` that ends the loop
                 if l2[0] in ('eq', 'lt') and any(x[1].split('::')[-1] == 'len' for x in find_calls(l2[1], '::len') + (find_calls(l2[2], '::len') if isinstance(l2[2], tuple) else [])):
-                    other = l2[2] if find_calls(l2[1], '::len') else l2[1]
-                    cap = other
+                    len_first = bool(find_calls(l2[1], '::len'))
+                    other = l2[2] if len_first else l2[1]
+                    # "full" on this path?  eq(len, N) true / lt(len, N) false / lt(N, len) true
+                    full = (l2[3] is True) if l2[0] == 'eq' else ((l2[3] is False) if len_first else (l2[3] is True))
+                    cap_seen.append((other, full, p.end == 'loop' and all(bb in comp for bb in p.blocks[order.get(c[2], 0):])))
                     continue
                 raise Lost('the iteration branches after the push')
             lits.append(c)
@@ -1570,6 +1593,10 @@ def loop_stream(sym, lv):
         rows.append((lits, strip_transparent(pushes[0][2][1]) if pushes else None, p))
     if src is None or not rows:
         raise Lost('no iteration path')
+    # the cut-off counts only if the loop is really left when the collection is full and only goes on when it is not
+    if cap_seen and all((not full) == continuing for _, full, continuing in cap_seen) and len({fmt(o) for o, _, _ in cap_seen}) == 1 \
+            and sum(1 for r in rows if r[1] is not None) == len(cap_seen):
+        cap = cap_seen[0][0]
     elem = ('field', ('downcast', nxt, 'Some'), '0')
     site = nxt[3]
 
